@@ -144,7 +144,7 @@ def generate(seed, tier="quick", faults=True):
                 op["tick_inside"] = {"before_fft": gen.randrange(0, 3), "dt": gen.choice([31.0, 61.0])}
             ops.append(op)
         elif r < 0.64:
-            ops.append({"op": "threads", "n": gen.choice([1, 1, 2, 3, 4, 4, 8, 5, 6, 7])})
+            ops.append({"op": "threads", "n": gen.choice([1, 1, 2, 3, 4, 4, 8, 5, 6, 7, 1, 2, 4, 17])})
         elif r < 0.70:
             ops.append({"op": "reset"})
         elif r < 0.75:
@@ -187,8 +187,30 @@ def generate(seed, tier="quick", faults=True):
         last_exit = max([k for k, o in enumerate(ops) if o["op"] == "exit"] + [-1])
         pos = gen.randrange(last_exit + 1, len(ops) + 1)
         ops[pos:pos] = sandwich
+    if long_run and gen.random() < 0.5:
+        # a marathon over many distinct geometries in ONE process, then the first
+        # ones again: bounded per-process memo/plan/buffer pools have to evict
+        geo = ["domain", "srf_flx.shape", "modes", "halo.other", "halo.subcell", "srf_flx.transpose", "domain.tiny"]
+        tries = 0
+        while len(alpha) < 44 and tries < 400:
+            tries += 1
+            s2 = S.neighbour(alpha[gen.randrange(len(alpha))], gen.choice(geo), gen)
+            if s2 is None:
+                continue
+            if not s2["footprint"]:
+                s2["nx"] += s2["nx"] % 2
+                s2["ny"] += s2["ny"] % 2
+            if all(canon(s2) != canon(t) for t in alpha):
+                alpha.append(s2)
+        order = list(range(len(alpha)))
+        ops = [{"op": "threads", "n": 1}] + [{"op": "solve", "spec": i} for i in order]
+        for i in order[:8]:
+            ops.append({"op": "solve", "spec": i})
+            if gen.random() < 0.2:
+                ops.append({"op": gen.choice(["reset", "clear_cache"])})
+        nproc = 1
     procs = [{"chunksize": gen.choice([0, 0, 1, 3, 16])} for _ in range(nproc + 1)]
-    return {"engine": "histsim", "property": PROP, "seed": seed, "tier": tier, "faults": faults, "alphabet": alpha, "ops": ops, "procs": procs,
+    return {"engine": "histsim", "reuse_arrays": gen.random() < 0.5, "property": PROP, "seed": seed, "tier": tier, "faults": faults, "alphabet": alpha, "ops": ops, "procs": procs,
             "numba_state": gen.choice(["serial_first", "parallel_first", "serial_first", "parallel_first", "parallel_only"] if tier == "thorough" else ["serial_first", "parallel_first"]),
             "initial_wisdom": (fault.choice(["absent", "absent", "valid_other", "empty", "garbage"]) if faults else "absent")}
 
@@ -410,6 +432,11 @@ class Segment:
             return -2
 
     def get_inputs(self, i):
+        if self.rec.get("reuse_arrays"):
+            # a preallocating caller: one set of array objects per shape, refilled
+            # in place before every call (contents are exactly those of a fresh build)
+            args = S.build_args(self.rec["alphabet"][i], reuse=True)
+            return args, self.input_digest(args)
         if i not in self.inputs:
             args = S.build_args(self.rec["alphabet"][i])
             dig = self.input_digest(args)
@@ -446,11 +473,28 @@ class Segment:
                 numba.set_parallel_chunksize(c)
                 self.fire("parallel_chunksize")
         try:
+            import numba
+
+            invalid_threads = threads > numba.config.NUMBA_NUM_THREADS
+        except Exception:
+            invalid_threads = False
+        try:
             grid, conc, flx = solve(**args, cache=None)
         except Exception as e:
             ref = self.refs[i]
             if "exc" in ref and ref["exc"] == type(e).__name__:
                 self.events.append([k, "solve", i, threads, "same-exception"])
+                return
+            if invalid_threads:
+                # more threads than numba's pool has: outside the property's range
+                # 1..8 - the only demand is that the call behaves the same every time
+                key = (i, threads)
+                if key in self.first and self.first[key][0] != "exc:" + type(e).__name__:
+                    raise Violation("bit-identical", "differs", f"op {k}: spec {i} with {threads} threads raised {type(e).__name__} but the same call at op {self.first[key][3]} did not",
+                                    {"op": k, "field": "outcome"})
+                self.first.setdefault(key, ("exc:" + type(e).__name__, None, None, k))
+                self.probe("invalid_thread_count_raises")
+                self.events.append([k, "solve", i, threads, "invalid-threads", type(e).__name__])
                 return
             raise Violation("no-exception", "exception", f"op {k}: solve of spec {i} with {threads} thread(s) raised {type(e).__name__}: {str(e)[:200]}",
                             {"op": k, "exc": type(e).__name__, "tb": traceback.format_exc()[-1500:]})
@@ -473,6 +517,13 @@ class Segment:
         flx = np.asarray(flx)
         gd = sha([arr_digest(g) for g in grid])
         key = (i, threads)
+        if invalid_threads:
+            if key in self.first and isinstance(self.first[key][0], str):
+                raise Violation("bit-identical", "differs", f"op {k}: spec {i} with {threads} threads returned but the same call at op {self.first[key][3]} raised {self.first[key][0][4:]}",
+                                {"op": k, "field": "outcome"})
+            self.first.setdefault(key, (conc.copy(), flx.copy(), gd, k))
+            self.events.append([k, "solve", i, threads, "invalid-threads", "returned"])
+            return
         if key in self.first:
             fc, ff, fg, fk = self.first[key]
             for name, a, b in (("conc", conc, fc), ("flx", flx, ff)):
@@ -818,6 +869,10 @@ def simplify(rec):
         c = copy.deepcopy(rec)
         c["numba_state"] = "serial_first"
         yield c
+    if rec.get("reuse_arrays"):
+        c = copy.deepcopy(rec)
+        c["reuse_arrays"] = False
+        yield c
     if any(p["chunksize"] for p in rec["procs"]):
         c = copy.deepcopy(rec)
         for p in c["procs"]:
@@ -849,6 +904,19 @@ def plan(tier, master_seed, runs=None):
         jobs.append({"kind": "run", "record": generate(run_seed(master_seed, PROP, i), tier, faults=(i % 10) >= 3)})
         if jobs[-1]["record"]["numba_state"] in ("cold", "parallel_only"):
             jobs[-1]["timeout"] = 900  # some simulated process has to compile a kernel
+    nbig = 0 if (runs is not None and runs < 100) else (1 if tier == "quick" else 6)
+    for k in range(nbig):
+        # more than 2**20 (level, mode) entries: a size no random small problem reaches
+        g = stream(run_seed(master_seed, PROP, f"big{k}"), "gen")
+        b = S.base_spec(g)
+        b.update(nx=128, ny=128, domain=[200.0, 200.0], halo=100.0, modes=[256, 256], nz=35, z0=0.1, zm=8.0, prof=g.choice(["most_unstable", "most_stable"]),
+                 U=3.0, V=1.0, levels=list(range(1, 35, 2)), footprint=g.random() < 0.5, meas_pt=[0.0, 0.0], analytic=False, precision="double", bg=0.0,
+                 repr=None, prof_elem=None, z_elem=None, z_scale=1.0, prof_scale=[1.0] * 5)
+        rec = {"engine": "histsim", "property": PROP, "seed": run_seed(master_seed, PROP, f"big{k}"), "tier": tier, "faults": False,
+               "alphabet": [b, dict(b, precision="single")],
+               "ops": [{"op": "solve", "spec": 1}, {"op": "solve", "spec": 0}, {"op": "threads", "n": 4}, {"op": "solve", "spec": 1}, {"op": "threads", "n": 1}, {"op": "solve", "spec": 1}],
+               "procs": [{"chunksize": 0}, {"chunksize": 0}], "numba_state": "serial_first", "initial_wisdom": "absent", "reuse_arrays": False}
+        jobs.append({"kind": "run", "record": rec, "timeout": 900})
     return {"jobs": jobs, "determinism_slice": 6, "shrink_budget_s": 240}
 
 
